@@ -1,14 +1,4 @@
-#![allow(dead_code)]
-mod connw;
-mod connx;
-mod explore;
-mod par;
-mod props;
-mod spec;
-mod srvx;
-mod stream;
-mod util;
-
+use mhv::{props, util};
 use serde_json::{json, Value};
 
 fn main() {
@@ -35,33 +25,17 @@ fn main() {
         }
         "replay" => {
             let v: Value = serde_json::from_slice(&std::fs::read(&args[2]).unwrap()).unwrap();
-            let r = &v["replay"];
-            let want_small = r["config"]["buffer_size"].as_u64().map(|b| b == 32);
-            if let Some(ws) = want_small {
-                if ws != props::small_build() {
+            match mhv::replay_value(&v["replay"]) {
+                None => {
                     println!("WRONG-BUILD");
                     std::process::exit(3);
                 }
-            }
-            let (repro, trace) = match r["engine"].as_str() {
-                Some("connx") => connx::replay(r),
-                Some("connw") => connw::replay(r),
-                Some("srvx") => srvx::replay(r),
-                Some("c05") | Some("c05len") => props::c05::replay(r),
-                Some("c14") => props::c14::replay(r),
-                Some("c15line") | Some("c15block") => props::c15::replay(r),
-                Some("c16tok") | Some("c16uri") => props::c16::replay(r),
-                Some("c17") => props::c17::replay(r),
-                Some("entry") => props::c03::replay_entry(r),
-                Some("socketpair") => props::c12::replay_socketpair(r),
-                _ => {
-                    eprintln!("unknown engine in replay file");
-                    std::process::exit(2);
+                Some((repro, trace)) => {
+                    println!("{}", serde_json::to_string_pretty(&trace).unwrap());
+                    println!("{}", if repro { "REPRODUCED" } else { "NOT-REPRODUCED" });
+                    std::process::exit(if repro { 1 } else { 0 });
                 }
-            };
-            println!("{}", serde_json::to_string_pretty(&trace).unwrap());
-            println!("{}", if repro { "REPRODUCED" } else { "NOT-REPRODUCED" });
-            std::process::exit(if repro { 1 } else { 0 });
+            }
         }
         _ => std::process::exit(2),
     }
